@@ -8,3 +8,7 @@ setup:
 clean:
 	cd coq && [ -f Makefile.coq ] && $(MAKE) -f Makefile.coq cleanall || true
 	rm -rf _build
+
+# independent re-check of every compiled property file and of all they load; lists the axioms (none expected). ~35 min.
+coqchk:
+	cd coq && coqchk -silent -o -R . ML $$(for i in 01 02 03 04 05 06 07 08 09 10 11 12 13 14 15 16 17 18 19 20; do echo ML.Properties.C$$i; done)
